@@ -54,6 +54,8 @@ def run(F, R):
         kinds = sorted(set(l[0] for l in lv))
         somes = [l for l in lv if l[0] == "some"]
         others = [l for l in lv if l[0] == "other"]
+        filt = [l for l in somes if len(l) > 2]
+        R.check("C07-R1", "value-unfiltered", not filt, "no alternative of the value is dropped by a filter", "a parsed interval is dropped when %s fails" % [l[2][:60] for l in filt][:2], wn_.loc())
         R.check("C07-R1", "value-shape", not others and somes and "none" in kinds, "the value is None or Some(..) on every path (%d alternatives in %d bodies)" % (len(lv), len(bodies)),
                 "the poll interval can be something else than None / Some(parsed header): %s" % [terms.render(bv, l[1], W, {}, transparent=NOERR)[:120] for l in others][:3], wn_.loc())
         exp = "from_secs(min(parse::<u64>(to_str(get(RECV.headers, %r)@OK)@OK)@OK, %d))" % (HEADER, CAP)
